@@ -393,26 +393,26 @@ theorem reads_of_at {c : Cfg} {e : Expr} (h : ReadsAt c e) : Reads c e := by
   by_cases hw : level e < min
   · simp only [if_pos hw]
     -- inside the parentheses
-    have hin := tower (c := c) (x := normCtx e) (ts := raw e ++ T (.p .rparen) :: rest)
-      (rest := T (.p .rparen) :: rest) (K := own e) hL
+    have hin := tower (c := c) (x := normCtx e) (ts := raw e ++ U (.p .rparen) :: rest)
+      (rest := U (.p .rparen) :: rest) (K := own e) hL
       (fun f R hf ha => h _ f R (fol_rparen _ _ _) hf ha) (level e) 0 (by omega) (fol_rparen _ _ _) 1
-      (normCtx e, T (.p .rparen) :: rest) (Nat.le_refl _)
+      (normCtx e, U (.p .rparen) :: rest) (Nat.le_refl _)
       (by rw [after_bin (by omega)]; rfl)
     rw [entryThen_bin (by omega)] at hin
-    have hprim : pPrimary c (1 + own e + 2 * level e + 1) (T (.p .lparen) :: (raw e ++ T (.p .rparen) :: rest))
+    have hprim : pPrimary c (1 + own e + 2 * level e + 1) (U (.p .lparen) :: (raw e ++ U (.p .rparen) :: rest))
         = some (normCtx e, rest) := by
       rw [pPrimary_succ]
-      simp only [T] at hin ⊢
+      simp only [U] at hin ⊢
       rw [hin]
     have h9 : ∀ f R, 1 ≤ f → after c f 9 (normCtx e) rest = some R →
-        entryThen c (f + (1 + own e + 2 * level e + 1)) 9 (T (.p .lparen) :: (raw e ++ T (.p .rparen) :: rest)) = some R := by
+        entryThen c (f + (1 + own e + 2 * level e + 1)) 9 (U (.p .lparen) :: (raw e ++ U (.p .rparen) :: rest)) = some R := by
       intro f R _ ha
       rw [entryThen_9]; rw [after_9] at ha
       unfold pPrimFilt
       rw [pPrimary_mono hprim (by omega)]
       exact pFilt_mono ha (by omega)
     have := tower (c := c) (L := 9) (Nat.le_refl _) h9 (9 - min) min (by omega) hfol f R hf ha
-    have hts : T (.p .lparen) :: (raw e ++ [T (.p .rparen)]) ++ rest = T (.p .lparen) :: (raw e ++ T (.p .rparen) :: rest) := by
+    have hts : U (.p .lparen) :: (raw e ++ [U (.p .rparen)]) ++ rest = U (.p .lparen) :: (raw e ++ U (.p .rparen) :: rest) := by
       simp
     rw [hts]
     exact entryThen_mono this (by omega)
